@@ -230,12 +230,99 @@ let cmd_fstw (args : string list) : string =
     "s0=" ^ signal_obs (FstLoad.sw_finish sw)
   | _ -> "BADCASE"
 
+
+(* ---- hier <ops> <queries> ---- *)
+let rec z_of_int (i : int) : BinNums.coq_Z =
+  if i = 0 then BinNums.Z0 else if i > 0 then BinNums.Zpos (pos_of_int i) else BinNums.Zneg (pos_of_int (- i))
+let int_of_z (z : BinNums.coq_Z) : int =
+  match z with BinNums.Z0 -> 0 | BinNums.Zpos p -> int_of_pos p | BinNums.Zneg p -> - (int_of_pos p)
+
+let parse_index (s : string) : (BinNums.coq_Z * BinNums.coq_Z) option =
+  if s = "~" then None else
+  let (m, l) = split2 '/' s in Some (z_of_int (int_of_string m), z_of_int (int_of_string l))
+
+let enc_str (e : WaveMem.sig_enc) : string =
+  match e with WaveMem.EncString -> "s" | WaveMem.EncReal -> "r" | WaveMem.EncBits n -> "b" ^ string_of_int (int_of_nat n)
+
+let index_str (i : (BinNums.coq_Z * BinNums.coq_Z) option) : string =
+  match i with None -> "~" | Some (m, l) -> Printf.sprintf "%d/%d" (int_of_z m) (int_of_z l)
+
+let hier_ops_of (ops : string) : Hierarchy.hier_op list =
+  Stdlib.List.map (fun op ->
+    match Stdlib.String.split_on_char ':' op with
+    | ["S"; fl; nm; comp; tpe] ->
+      Hierarchy.HScope (bytes_of_hex nm, (if comp = "~" then None else Some (bytes_of_hex comp)),
+                        n_of_int (int_of_string tpe), fl = "1")
+    | ["V"; nm; tpe; dir; enc; idx; sg] ->
+      Hierarchy.HVar (bytes_of_hex nm, n_of_int (int_of_string tpe), n_of_int (int_of_string dir),
+                      sig_enc_of enc, parse_index idx, nat_of_int (int_of_string sg))
+    | ["P"] -> Hierarchy.HPop
+    | _ -> failwith ("bad hier op " ^ op)) (split_on ';' ops)
+
+let hierarchy_obs (b : Hierarchy.builder) : string =
+  let open Hierarchy in
+  let w = get (full_walk b) in
+  let items = Stdlib.List.map (fun (d, it) ->
+    let d = int_of_nat d in
+    match it with
+    | IScope i ->
+      let sc = Stdlib.List.nth b.hb_scopes (int_of_nat i) in
+      Printf.sprintf "%dS%d:%s:%s:%d:%s" d (int_of_nat i) (hex_of_bytes sc.sc_name)
+        (hex_of_bytes (get (scope_full_name (items_fuel b) b i))) (int_of_n sc.sc_tpe)
+        (match sc.sc_component with None -> "~" | Some c -> hex_of_bytes c)
+    | IVar i ->
+      let v = Stdlib.List.nth b.hb_vars (int_of_nat i) in
+      Printf.sprintf "%dV%d:%s:%s:%d:%d:%s:%s:%d" d (int_of_nat i) (hex_of_bytes v.v_name)
+        (hex_of_bytes (get (var_full_name b i))) (int_of_n v.v_tpe) (int_of_n v.v_direction)
+        (enc_str v.v_enc) (index_str v.v_index) (int_of_nat v.v_signal)) w in
+  let refs items =
+    let vs = Stdlib.List.filter_map (fun it -> match it with IVar i -> Some (string_of_int (int_of_nat i)) | _ -> None) items in
+    let ss = Stdlib.List.filter_map (fun it -> match it with IScope i -> Some (string_of_int (int_of_nat i)) | _ -> None) items in
+    Stdlib.String.concat "." vs ^ "/" ^ Stdlib.String.concat "." ss in
+  let parts = refs (get (top_items b)) ::
+    Stdlib.List.mapi (fun i _ -> refs (get (scope_items b (nat_of_int i)))) b.hb_scopes in
+  let n = int_of_nat (num_unique_signals b) in
+  let tpes = Stdlib.List.init n (fun i -> match get_signal_tpe b (nat_of_int i) with None -> "-" | Some e -> enc_str e) in
+  Printf.sprintf "walk=%s nv=%d ns=%d part=%s nsig=%d tpes=%s first=%s"
+    (if items = [] then "-" else Stdlib.String.concat "|" items)
+    (Stdlib.List.length b.hb_vars) (Stdlib.List.length b.hb_scopes)
+    (Stdlib.String.concat ";" parts) n (if tpes = [] then "-" else Stdlib.String.concat "," tpes)
+    (match b.hb_scopes with [] -> "~" | sc :: _ -> hex_of_bytes sc.sc_name)
+
+let path_of (s : string) : BinNums.coq_N list list =
+  if s = "" then [] else
+  Stdlib.List.map (fun x -> if x = "_" then [] else bytes_of_hex x) (Stdlib.String.split_on_char '/' s)
+
+let queries_obs (b : Hierarchy.builder) (queries : string) : string =
+  let res = Stdlib.List.map (fun q ->
+    let kind = Stdlib.String.sub q 0 2 and rest = Stdlib.String.sub q 2 (Stdlib.String.length q - 2) in
+    let show r = match r with None -> "~" | Some i -> string_of_int (int_of_nat i) in
+    if kind = "s/" then
+      show (get (Hierarchy.lookup_scope b (path_of rest)))
+    else begin
+      match Stdlib.String.split_on_char '=' rest with
+      | [path; nm; idx] ->
+        let path = path_of path in
+        let index = if idx = "*" then None else parse_index idx in
+        show (get (Hierarchy.lookup_var b path (bytes_of_hex nm) index))
+      | _ -> failwith "bad query"
+    end) (split_on ';' queries) in
+  if res = [] then "-" else Stdlib.String.concat "," res
+
+let cmd_hier (args : string list) : string =
+  match args with
+  | ops :: queries :: _ ->
+    let b = get (Hierarchy.hier_run Hierarchy.hb_new (hier_ops_of ops)) in
+    hierarchy_obs b ^ " lk=" ^ queries_obs b queries
+  | _ -> "BADCASE"
+
 let dispatch (cmd : string) (args : string list) : string =
   match cmd with
   | "offsets" -> cmd_offsets args
   | "enc" -> cmd_enc args
   | "body" -> cmd_body args
   | "fstw" -> cmd_fstw args
+  | "hier" -> cmd_hier args
   | "vcd" -> cmd_vcd args
   | _ -> "UNSUPPORTED"
 
